@@ -46,7 +46,7 @@ GRID = [0.0, 0.5, 1.0, 2.0, 3.0, 4.0]
 def bounds(tier):
     return {"collective_rows": "1..%d" % (2 if tier == "quick" else 3),
             "binnings": "all gap-free binnings with 1..%d classes on the grid %s; integer binnings 1..3"
-                        % (2 if tier == "quick" else 3, GRID)}
+                        % (2 if tier == "quick" else 4, GRID)}
 
 
 def _binnings(maxbins):
@@ -66,7 +66,7 @@ def cases(tier):
             out.append({"kind": "rangemean", "m": m, "cycles": cyc, "_weight": 9 ** m})
         out.append({"kind": "scale", "m": m, "_weight": 9 ** m * 3})
         out.append({"kind": "shift", "m": m, "_weight": 9 ** m})
-    bs = _binnings(2 if q else 3)
+    bs = _binnings(2 if q else 4)
     rng = np.random.default_rng(14)
     pairs = []
     for src in bs:
